@@ -546,6 +546,31 @@ def rule_parens(crate):
             out.ok(key, af, al, "printed bare; built by the parser at depth %d >= call level %d" % (built[av], threshold))
         else:
             out.violation(key, af, al, "Expression::%s is printed without parentheses in operand position, but the parser builds it at an operator level (depth %d, above the call level %d): next to another operator the echoed text is re-read with a different structure (e.g. `(3!)!` echoed as `3!!`)" % (v, built[av], threshold))
+    # ---- negative number literals: the parser turns a unicode exponent with a minus sign (`km⁻¹`) into a Scalar with
+    # a NEGATIVE value; printed bare it starts with the operator `-` (`kilometre^-1`), which reads back as a negation
+    # and is then echoed differently (`kilometre^(-1)`): with_parens must test the sign of a Scalar
+    uxi = crate.hir.get(PARSER + "unicode_exponent_to_int")
+    up = crate.hir.get(PARSER + "unicode_power")
+    signed = uxi is not None and any((y.get("k") == "Unary" and str(y.get("op")) == "Neg") or (y.get("k") == "Lit" and isinstance(y.get("lit"), dict) and str(y["lit"].get("v", "")).startswith("-")) for y in walk(uxi["body"]))
+    builds = up is not None and any((ctor_variant(y) or ("", ""))[1] == "Scalar" for y in walk(up["body"]) if y.get("k") in ("Call", "Struct")) and any(y.get("k") in ("Call", "MethodCall") and (callee(y) or "").endswith("unicode_exponent_to_int") for y in walk(up["body"]))
+    if uxi is None or up is None:
+        out.error("anchor missing: Parser::unicode_power / unicode_exponent_to_int")
+    elif signed and builds:
+        n += 1
+        sign_tested = False
+        for (asg, res, _n) in table.get("Scalar", []):
+            if res != "paren":
+                continue
+            for name, val in asg.items():
+                node = ev.atoms.get(name)
+                if val and node is not None:
+                    for y in walk(node):
+                        if (y.get("k") == "Binary" and str(y.get("op")) in ("<", "<=", ">", ">=")) or (y.get("k") == "MethodCall" and y["name"] in ("is_negative", "is_sign_negative", "is_positive", "is_sign_positive", "signum")):
+                            sign_tested = True
+        if sign_tested:
+            out.ok("with_parens:Scalar:negative", f, wp["line"], "a Scalar with a negative value is parenthesised")
+        else:
+            out.violation("with_parens:Scalar:negative", f, wp["line"], "Parser::unicode_power builds a Scalar with a NEGATIVE value for exponents like `⁻¹`, and with_parens prints every Scalar bare: `km⁻¹` is echoed as `kilometre^-1`, whose re-read is echoed as `kilometre^(-1)` — the echo is not stable")
     # ---- sugar forms: a kind that with_parens leaves bare must not PRINT as an operator expression.  In the printing
     # arm of such a kind, an emitted operator/keyword whose token is consumed by a level looser than `call` (->, +, …)
     # is allowed only for the callee names that with_parens parenthesises: the names tested by a condition of
@@ -687,6 +712,68 @@ def rule_printfields(crate):
                 out.ok(key, af, al, "StructInfo.%s is used by the printer" % fld)
             else:
                 out.violation(key, af, al, "the printer of struct definitions does not use StructInfo.%s%s: the echoed definition no longer says the same as the input" % (fld, " (the type parameter list `<D: Dim, …>`)" if fld == "kind" else ""))
+    # (c) DECORATORS: a definition that carries decorators is echoed with them (`@aliases(w) let v = 1` without its
+    # decorator no longer defines `w`; @name/@url/@description/@example are what `info` shows)
+    n_dec = 0
+    for m in walk(fn["body"]):
+        if m.get("k") != "Match" or str(m.get("src")) != "Normal":
+            continue
+        for a in m["arms"]:
+            vs = pat_variants(a["pat"], "crate::typed_ast::Statement")
+            if not vs or len(vs) != 1:
+                continue
+            v = next(iter(vs))
+            # the struct pattern that destructures the definition: the variant itself or a struct in its payload
+            carriers = []
+            for p in walk(a["pat"]):
+                if p.get("k") != "Struct" or not p.get("adt"):
+                    continue
+                adt = crate.adts.get(p["adt"])
+                if not adt:
+                    continue
+                vv = next((x for x in adt["variants"] if x["name"] == (p.get("variant") or adt["variants"][0]["name"])), None)
+                if vv and any(fl.get("name") == "decorators" for fl in vv["fields"]):
+                    carriers.append(p)
+            for p in carriers:
+                n_dec += 1
+                bid = None
+                for it in p.get("fields", []) or []:
+                    if isinstance(it, list) and len(it) == 2 and str(it[0]) == "decorators":
+                        for q in walk(it[1]):
+                            if q.get("k") == "Binding":
+                                bid = q["id"]
+                af, al = crate.loc(fn, a["pat"])
+                key = "decorators:%s" % v
+                used = bid is not None and any(x.get("k") == "Path" and x["res"].get("r") == "local" and x["res"].get("id") == bid for x in walk(a["body"]))
+                if used:
+                    out.ok(key, af, al, "the decorators of %s are printed" % v)
+                else:
+                    out.violation(key, af, al, "the printer of Statement::%s does not use its `decorators`: `@aliases(w) let v = 1` is echoed as `let v: Scalar = 1`, after which `w` is unknown; @name/@description/@url/@example are lost as well" % v)
+    # (d) BASEUNIT: `unit foo` (no annotation) itself creates the dimension `Foo`; an echo that writes the implicit
+    # dimension as an annotation (`unit foo: Foo`) refers to a dimension that does not exist in the session state in
+    # which the statement was accepted
+    for m in walk(fn["body"]):
+        if m.get("k") != "Match" or str(m.get("src")) != "Normal":
+            continue
+        for a in m["arms"]:
+            if pat_variants(a["pat"], "crate::typed_ast::Statement") != {"DefineBaseUnit"}:
+                continue
+            ts = None
+            for p in walk(a["pat"]):
+                if p.get("k") == "Struct":
+                    for it in p.get("fields", []) or []:
+                        if isinstance(it, list) and len(it) == 2 and str(it[0]) == "type_scheme":
+                            for q in walk(it[1]):
+                                if q.get("k") == "Binding":
+                                    ts = q["id"]
+            af, al = crate.loc(fn, a["pat"])
+            uses = ts is not None and any(x.get("k") == "Path" and x["res"].get("r") == "local" and x["res"].get("id") == ts for x in walk(a["body"]))
+            if uses:
+                out.violation("base-unit:implicit-dimension-annotation", af, al, "the printer of base-unit definitions writes the INFERRED type where the definition has no annotation: `unit foo` is echoed as `unit foo: Foo`, which is rejected in the same session state (unknown dimension `Foo` — the dimension is created by the un-annotated definition itself)")
+            else:
+                out.ok("base-unit:implicit-dimension-annotation", af, al, "only a written annotation is echoed")
+    if n_dec < 4:
+        out.error("anchor missing: fewer than 4 statement printer arms destructure a definition with decorators (%d)" % n_dec)
     # (b)
     tfns = [b for d, b in crate.hir.items() if d.endswith("::pretty_print") and strip_generics(b.get("impl_self") or "").endswith("ast::TypeExpression")]
     if not tfns:
@@ -694,8 +781,12 @@ def rule_printfields(crate):
         return out
     tf = tfns[0]
     parm = None
+    tf_self = {p["id"] for p in tf["params"] if p.get("k") == "Binding"}
     for m in walk(tf["body"]):
         if m.get("k") == "Match" and str(m.get("src")) == "Normal":
+            sp = place_path(peel_refs(m["scrut"]))
+            if not (sp and sp[0] in tf_self and not sp[2]):
+                continue  # a peek at an operand, not the printer's dispatch on `self`
             for a in m["arms"]:
                 if pat_variants(a["pat"], "crate::ast::TypeExpression") == {"Power"}:
                     parm = a
@@ -724,7 +815,8 @@ def rule_printfields(crate):
             out.ok("type-exponent:bare-only-if-integer", pf, pl, "the exponent is always parenthesised")
         else:
             out.violation("type-exponent:bare-only-if-integer", pf, pl, "the exponent of a dimension expression is never parenthesised")
-    out.analysed = {"struct_fields": 3, "power_arm_ifs": len(ifs)}
+    out.analysed = {"struct_fields": 3, "power_arm_ifs": len(ifs), "decorator_carriers": n_dec}
+    out.floor("power_arm_ifs", len(ifs), 1)
     return out
 
 
